@@ -155,6 +155,11 @@ def relation_cases(rnd):
         for r in ("  ABC ", "abc", "abd", "\tAbC\n"):
             v = "abc" if op != "in" else ["abc", "x"]
             yield (f"{op} normalize", {"type": "value", "key": "k", "op": op, "value": v, "value_type": "normalize"}, r, REL[op](normalize_model(r), v), "padded" if r != r.strip() else "plain")
+        # characters whose lower case and full case folding differ (sharp s, final sigma, ligatures, long s): Custodian lower-cases
+        for r in (" Stra\u00dfe ", "\u03a3\u038a\u03a3\u03a5\u03a6\u039f\u03a3 ", "\ufb01n", "\u017f", "\u00b5M", "\u1e9e", "\u00c9COLE "):
+            for folded in (r.strip().lower(), r.strip().casefold()):
+                v = folded if op != "in" else [folded, "x"]
+                yield (f"{op} normalize", {"type": "value", "key": "k", "op": op, "value": v, "value_type": "normalize"}, r, REL[op](r.strip().lower(), v), "case-folding")
     # age / expiration: days since / until the resource timestamp
     for op in ("gt", "lt", "ge", "le", "greater-than", "less-than", "gte", "lte"):
         days = rnd.choice([1, 7, 30])
